@@ -71,6 +71,13 @@ fn pats() -> Vec<Pat> {
             groups: 1,
             inputs: vec![("q", vec![], vec!["q"]), ("a\u{17f}t", vec![vec![Some("\u{17f}t"), Some("t")]], vec!["a", ""]), ("ST.st", vec![vec![Some("ST"), Some("T")], vec![Some("st"), Some("t")]], vec!["", ".", ""])],
         },
+        // line-anchored matches that consume their newline: every line is replaced
+        Pat {
+            text: "^a\\n",
+            flags: "m",
+            groups: 0,
+            inputs: vec![("q", vec![], vec!["q"]), ("a\na\na\n", vec![vec![Some("a\n")], vec![Some("a\n")], vec![Some("a\n")]], vec!["", "", "", ""]), ("b\na\nab", vec![vec![Some("a\n")]], vec!["b\n", "ab"])],
+        },
         // an optional group at the end of a counted body, given back while backtracking
         Pat {
             text: "(?:.(a)?){2}",
@@ -236,8 +243,24 @@ fn space_for(tier: Tier) -> Space {
         Tier::Quick => s.list("replacements<=5", count(5), 64),
         Tier::Thorough => s.list("replacements<=7", count(7), 512),
     };
+    s.list("long digit runs", LONG_RUNS.len() as u64, 4);
     s
 }
+
+/// `$` followed by digit runs that do not fit in 64 bits, or that exceed the group count
+/// by many orders of magnitude.
+const LONG_RUNS: [&str; 10] = [
+    "$99999999999999999999",
+    "$18446744073709551616",
+    "$18446744073709551615",
+    "$100000000000000000000",
+    "$10000000000000000000000000000000000000000",
+    "<$12345678901234567890123>",
+    "$1099999999999999999999",
+    "$009999999999999999999",
+    "\\$99999999999999999999$1",
+    "$99999999999999999999$",
+];
 
 impl Check for C15 {
     fn id(&self) -> &'static str {
@@ -266,8 +289,9 @@ impl Check for C15 {
         let (_seg, lo, hi) = sp.locate(chunk);
         let pats = pats();
         let compiled: Vec<Option<regexml::Regex>> = pats.iter().map(|p| imp::compile(p.text, p.flags, false).ok().map(|_| ()).and_then(|_| regexml::Regex::xpath(p.text, p.flags).ok())).collect();
+        let long_runs = crate::space::seg_scope_name(_seg) == "long digit runs";
         for idx in lo..hi {
-            let r = repl_string(idx);
+            let r = if long_runs { LONG_RUNS[idx as usize].to_string() } else { repl_string(idx) };
             if r.contains('$') || r.contains('\\') {
                 out.inc("nontrivial");
             }
